@@ -99,6 +99,7 @@ type Obligation struct {
 	nDecl   int
 	nAxiom  int
 	nGax    int
+	Where   string // source position of the site (informational)
 	Res     SolveResult
 	GetVals []string
 }
